@@ -266,7 +266,7 @@ long syscall(long n, ...) {
 }
 
 static int fill_pw(const IdName &e, struct passwd *pwd, char *buf, size_t len) {
-    size_t need = e.name.size() + 1 + 2 + 1 + 2 + 8;
+    size_t need = e.name.size() + 1 + 2 + 1 + 2 + 8 + e.entry_bytes;   // a long gecos field, home directory or shell
     if (len < need) return ERANGE;
     char *p = buf;
     pwd->pw_name = p; memcpy(p, e.name.c_str(), e.name.size() + 1); p += e.name.size() + 1;
@@ -312,7 +312,7 @@ static int sim_getgrgid_r(gid_t gid, struct group *grp, char *buf, size_t len, s
     if (faulted && f.err) { e.ret = f.err; e.mark |= MARK_FAULT; return f.err; }
     const IdName *n = G.w.gr(gid);
     if (!n) return 0;
-    if (len < n->name.size() + 1 + 2 + sizeof(char *) + 8) return ERANGE;
+    if (len < n->name.size() + 1 + 2 + sizeof(char *) + 8 + n->entry_bytes) return ERANGE;   // groups have member lists: an entry of a few KB is ordinary
     char *p = buf;
     grp->gr_name = p; memcpy(p, n->name.c_str(), n->name.size() + 1); p += n->name.size() + 1;
     grp->gr_passwd = p; memcpy(p, "x", 2); p += 2;
